@@ -427,7 +427,7 @@ INTERNAL = [
 
 def plan(tier, seed):
     thorough = tier == 'thorough'
-    ns = [1, 2, 5, 10, 100] if thorough else [2, 10]
+    ns = [0, 1, 2, 5, 10, 100] if thorough else [0, 2, 10]      # 0: every non-empty collection is over the limit
     shards = []
     parts = 8
     for n in ns:
